@@ -98,9 +98,6 @@ func (e *Engine) evalContract(st *State, fn *ssa.Function, args []Val, assume bo
 		r := asTerm(o.ret[0])
 		extra := o.st.pc[n0:]
 		res = Or(res, And(append(append([]*Term{}, extra...), r)...))
-		if assume && !r.IsFalse() && len(o.st.qfacts) > len(st.qfacts) {
-			st.qfacts = append([]QFact{}, o.st.qfacts...)
-		}
 		if assume && !r.IsFalse() {
 			for k, v := range o.st.text {
 				if _, ok := st.text[k]; !ok {
@@ -391,26 +388,36 @@ func (e *Engine) vspecCall(st *State, fr *Frame, name string, args []Val) ([]Out
 		if skolem {
 			done := map[string]bool{}
 			for _, rd := range s2.trace.reads {
-				for _, f := range st.root.qfacts {
-					if f.Key != rd.key {
+				for _, f := range allQFacts {
+					if f.Key != rd.key || !st.root.qfActive[f.QF.Leaf] {
 						continue
 					}
-					inst := subst(f.Body, f.BV.Leaf, Sub(rd.abs, f.Off))
+					inst := Implies(f.QF, subst(f.Body, f.BV.Leaf, Sub(rd.abs, f.Shift)))
 					if k := inst.String(); !done[k] {
 						done[k] = true
-						st.root.assumeT(inst)
+						st.root.pc = append(st.root.pc, inst)
 					}
 				}
 			}
 			return one(guarded)
 		}
-		if st.assume {
-			// remember the fact for instantiation at later reads of the arrays it talks about
-			for base, off := range s2.trace.bases {
-				st.qfacts = append(st.qfacts, QFact{Key: base, Off: off, BV: bv, Body: guarded})
+		// name the quantified formula: qf <=> forall k. guarded  (the axiom travels with the symbol, see Script)
+		all := Forall(bv, guarded)
+		qf := &Term{Leaf: fresh("qf"), W: 0, QDef: all}
+		seenF := map[string]bool{}
+		for _, rd := range s2.trace.reads {
+			shift := subst(rd.abs, bv.Leaf, BVu(0, 64))
+			if Add(shift, bv).String() != rd.abs.String() && Add(bv, shift).String() != rd.abs.String() {
+				continue // not of the form shift + k: left to the solver
 			}
+			id := rd.key + "|" + shift.String()
+			if seenF[id] {
+				continue
+			}
+			seenF[id] = true
+			allQFacts = append(allQFacts, &QFact{QF: qf, Key: rd.key, Shift: shift, BV: bv, Body: guarded})
 		}
-		return one(Forall(bv, guarded))
+		return one(qf)
 	case "BufIs":
 		b, id := e.bufOf(st, args[0])
 		want := txt(args[1])
